@@ -287,7 +287,7 @@ func (c *rawScn) step(st string) {
 						m := appNew(s, len(body))
 						m.Header = append(m.Header, hdr...)
 						m.Body = append(m.Body, body...)
-						err := appSend(s, m, sock.SendMsg)
+						err := appSend(s, m, sock.SendMsg, !c.cfg.P.cooked && (c.cfg.P.eng == "xrep" || c.cfg.P.eng == "xrespondent"))
 						return []interface{}{"r", err}
 					}})
 			}
@@ -301,7 +301,7 @@ func (c *rawScn) step(st string) {
 			m := appNew(s, len(body))
 			m.Header = append(m.Header, hdr...)
 			m.Body = append(m.Body, body...)
-			err := appSend(s, m, sock.SendMsg)
+			err := appSend(s, m, sock.SendMsg, !c.cfg.P.cooked && (c.cfg.P.eng == "xrep" || c.cfg.P.eng == "xrespondent"))
 			return []interface{}{"r", err}
 		})
 	case "recv":
@@ -440,7 +440,10 @@ func rawRandom(p rawProto, rng *rand.Rand) rawCfg {
 	injKinds := []string{"ok", "ok", "ok", "ok", "ok", "bad", "short"}
 	for i := 0; i < steps; i++ {
 		opts := []string{"send", "send", "send", "recv", "recv", "adv"}
-		if rng.Intn(6) == 0 {
+		if rng.Intn(6) == 0 && c.SQ > 0 {
+			// (not with an unbuffered send queue: whether a broadcast is taken by a pipe then depends on whether that
+			// pipe's sender goroutine has got back to its channel receive yet, which the specification does not model;
+			// with quiescence between the steps it always has)
 			opts = append(opts, "burst")
 		}
 		if np < 4 {
